@@ -108,7 +108,10 @@ _PROCESS_DEPENDENT = [
 ]
 
 
-def gen_module(rng: random.Random, process_dependent: bool = False, special: bool = False) -> str:
+SPECIAL_BLOCKS = ("doc", "spell", "deep", "settle", "loader", "overused")
+
+
+def gen_module(rng: random.Random, process_dependent: bool = False, special: bool = False, force: Optional[str] = None) -> str:
     """A small module that triggers a handful of rules: unused code, loops to
     comprehensions, redundant elses, constant conditions, unsorted imports."""
     k = [0]
@@ -118,7 +121,7 @@ def gen_module(rng: random.Random, process_dependent: bool = False, special: boo
         return f"{prefix}{k[0]}"
 
     parts: List[str] = []
-    if process_dependent and rng.random() < 0.35:
+    if force == "doc" or (force is None and process_dependent and rng.random() < 0.35):
         # a multi-line module docstring in front of names that are used but never imported: where and
         # in which order the guessed imports are inserted must not depend on set iteration
         names = rng.sample(["os", "sys", "re", "json", "math", "itertools", "functools", "random"], rng.randint(2, 4))
@@ -130,7 +133,7 @@ def gen_module(rng: random.Random, process_dependent: bool = False, special: boo
             return text
         except (SyntaxError, ValueError):
             pass
-    if process_dependent and rng.random() < 0.3:
+    if force == "spell" or (force is None and process_dependent and rng.random() < 0.3):
         # the same string value in several spellings, next to code a rule re-renders: which original
         # spelling is restored must not depend on set iteration
         val = rng.choice(["abc", "some text", "x-y-z", "path/to/file"])
@@ -144,7 +147,7 @@ def gen_module(rng: random.Random, process_dependent: bool = False, special: boo
             return text
         except (SyntaxError, ValueError):
             pass
-    if special and rng.random() < 0.15:
+    if force == "deep" or (force is None and special and rng.random() < 0.15):
         # deep nesting: the width left for a statement falls below black's floor of 60 columns, so
         # "fits in context" and "fits on its own" disagree - a classic split / join oscillation
         depth = rng.randint(5, 11)
@@ -168,7 +171,7 @@ def gen_module(rng: random.Random, process_dependent: bool = False, special: boo
             return text
         except (SyntaxError, ValueError):
             pass
-    if special and rng.random() < 0.2:
+    if force == "settle" or (force is None and special and rng.random() < 0.2):
         # branches that return, with left-over statements after a return: the shapes on which
         # swap_if_else / remove_redundant_else / early_return undo each other across passes
         f = name("settle")
@@ -193,7 +196,7 @@ def gen_module(rng: random.Random, process_dependent: bool = False, special: boo
             return text
         except (SyntaxError, ValueError):
             pass
-    if rng.random() < (0.25 if special else 0.06):
+    if force == "loader" or (force is None and rng.random() < (0.25 if special else 0.06)):
         # imports inside an indented block next to a multi-line statement that has a less indented
         # line (text of a triple-quoted string, a closing bracket in column 0), the block going on
         mods = rng.sample(["os", "sys", "re", "json", "math"], 2)
@@ -214,7 +217,7 @@ def gen_module(rng: random.Random, process_dependent: bool = False, special: boo
             return text
         except (SyntaxError, ValueError):
             pass
-    if rng.random() < (0.5 if special else 0.12):
+    if force == "overused" or (force is None and rng.random() < (0.5 if special else 0.12)):
         # several different constants, each used equally often and often enough to be abstracted:
         # which one gets which generated name must not depend on set / address order
         n_consts = rng.randint(2, 3)
